@@ -30,7 +30,7 @@ def run(ctx):
     obs.extra['meta'] = META
     from ..model.grids import set_wide_longitudes
     set_wide_longitudes(True)      # also datasets in the 0..360 convention / straddling 180 degrees
-    total = ctx.n(480, 12000)
+    total = ctx.n(480, 36000)
     for case, rng in ctx.cases(total):
         conv = CONVENTIONS[case % len(CONVENTIONS)]
         spec = {'case': case, 'convention': conv}
